@@ -14,6 +14,7 @@ RULE = ("paths: mul_assign, CurveAffine::mul, mul_precomp_3 and mul_precomp_256 
         "the window; recommendations for every bit-length and around every threshold. All results are compared with one "
         "independent model double-and-add per (P,k). A case is (op, group, scalar class, point class, window, outcome, "
         "build), classes re-derived by the monitor; distinct_nontrivial counts the distinct keys")
+RULE += (" " + 'The scalar set contains the computed ladder coincidences: for each ladder shape in the code (double-and-add, 4x64 and 8x32 combs, wNAF) the scalars for which the accumulator equals +- the entry it adds (mod r).')
 ASSUMPTIONS = ["model scalar multiplication: affine double-and-add", "wNAF digit strings are logged but are not a verdict (the property does not fix a recoding)"]
 EXHAUSTIVE = ["wNAF window sizes 2..=22 for G1 and G2 (each table built and used)", "recommended_wnaf_for_scalar for every bit-length 0..=255",
               "recommended_wnaf_for_num_scalars at every threshold-1, threshold, threshold+1"]
